@@ -31,6 +31,7 @@ type GraphOpts struct {
 	MapTags     bool
 	NoUnequal   bool
 	DirOut      bool // some outputs are directories
+	Join        bool // StreamToSubStream + joined in-port shapes
 }
 
 type stream struct {
@@ -41,6 +42,7 @@ type stream struct {
 	uses  int
 	multi bool // produced by a multi-output task
 	alias string // port of the stream whose items this stream carries unchanged
+	tags  []string // tag keys carried by the items
 }
 
 func (st *stream) id() string {
@@ -228,6 +230,44 @@ func Graph(rng *rand.Rand, name string, o GraphOpts) *spec.Spec {
 			connect(st, pname+".in", false)
 			n, amb = st.n, st.amb
 		}
+		// tags carried by the inputs; some are consumed in the command
+		var inTags []string
+		tagArgs := map[string]string{}
+		for _, cn := range s.Conns {
+			if strings.HasPrefix(cn.To, pname+".") {
+				for _, st := range streams {
+					if st.port == cn.From {
+						for _, tk := range st.tags {
+							inTags = append(inTags, tk)
+							_, port := spec.SplitPort(cn.To)
+							if len(ins) > 0 && !amb && rng.Intn(2) == 0 {
+								tagArgs["tg"+tk] = port + "." + tk
+							}
+						}
+					}
+				}
+			}
+		}
+		joinProc := false
+		if o.Join && shape == 9 && len(ins) == 1 && ins[0].Name == "in" && !amb {
+			// feed the in-port through a StreamToSubStream and join it
+			var conns []*spec.Conn
+			ssn := pname + "ss"
+			for _, cn := range s.Conns {
+				if cn.To == pname+".in" {
+					cn.To = ssn + ".in"
+				}
+				conns = append(conns, cn)
+			}
+			s.Conns = append(conns, &spec.Conn{From: ssn + ".substream", To: pname + ".in"})
+			s.Procs = append(s.Procs, &spec.Proc{Name: ssn, Kind: spec.KSubStream})
+			ins[0].Join = []string{"space", "comma", "colon"}[rng.Intn(3)]
+			n, amb = 1, false
+			params, p.Feeds = nil, nil
+			tagArgs = map[string]string{}
+			inTags = nil
+			joinProc = true
+		}
 		// outputs
 		nout := 1
 		if o.MultiOut && rng.Intn(4) == 0 {
@@ -240,6 +280,10 @@ func Graph(rng *rand.Rand, name string, o GraphOpts) *spec.Spec {
 				on := []string{"out", "res"}[j]
 				od := spec.PortDecl{Name: on}
 				mode := rng.Intn(4)
+				if joinProc {
+					p.Outs = append(p.Outs, &spec.Out{Port: on, Pattern: "joined." + pname + "." + on})
+					mode = 99
+				}
 				switch {
 				case mode == 0 && rng.Intn(2) == 0:
 					od.Ext = "txt"
@@ -291,10 +335,20 @@ func Graph(rng *rand.Rand, name string, o GraphOpts) *spec.Spec {
 		if o.Prepend && rng.Intn(6) == 0 {
 			p.Prepend = "env VERIF_PREPENDED=1"
 		}
-		p.Cmd = spec.BuildCmd(pname, ins, outs, params, nil, opts)
+		p.Cmd = spec.BuildCmd(pname, ins, outs, params, tagArgs, opts)
 		s.Procs = append(s.Procs, p)
 		for _, od := range outs {
-			streams = append(streams, &stream{port: pname + "." + od.Name, n: n, amb: amb, multi: len(outs) > 1})
+			streams = append(streams, &stream{port: pname + "." + od.Name, n: n, amb: amb, multi: len(outs) > 1, tags: append([]string{}, inTags...)})
+		}
+		if o.MapTags && len(outs) == 1 && !joinProc && rng.Intn(3) == 0 {
+			// tag the (only) output stream; the untagged stream is consumed by the tagging component alone
+			mn := pname + "mt"
+			key := fmt.Sprintf("t%d", i)
+			rule := []string{"stem", "idx", fmt.Sprintf("const:c%d", i), "ext"}[rng.Intn(3)]
+			s.Procs = append(s.Procs, &spec.Proc{Name: mn, Kind: spec.KMapToTags, Tags: []*spec.TagRule{{Key: key, Rule: rule}}})
+			st := streams[len(streams)-1]
+			s.Conns = append(s.Conns, &spec.Conn{From: st.port, To: mn + ".in"})
+			streams[len(streams)-1] = &stream{port: mn + ".out", n: st.n, amb: st.amb, tags: append(append([]string{}, st.tags...), key)}
 		}
 		if o.Recorders && len(outs) > 0 && rng.Intn(4) == 0 {
 			// put a recorder behind the first out-port
